@@ -23,6 +23,32 @@ Theorem C19_row_order_irrelevant :
       f_outliers (fit noisy outliers a) = f_outliers (fit noisy outliers b) /\
       Permutation (f_data (fit noisy outliers a)) (f_data (fit noisy outliers b)).
 Proof. exact row_order_irrelevant. Qed.
+(* the aggregated analysis series: per (date, period), x = control total and y = treatment total of the SCREENED data.
+   Each total is the total over the input of the rows that survive the screening; a reported outlier date has no entry;
+   an entry exists iff some row of that cell survives; totals depend neither on row order nor on rows of other cells *)
+Theorem C19_analysis_totals_are_totals_of_surviving_input_rows :
+  forall noisy outliers rows d p g,
+    let f := fit noisy outliers rows in
+    total (f_data f) d p g = fold_right Qplus 0%Q (map r_val (filter (fun r => kept f r && cell d p g r) rows)).
+Proof. exact analysis_total_of_screened. Qed.
+Theorem C19_analysis_has_no_entry_for_reported_dates :
+  forall noisy outliers rows d p g,
+    let f := fit noisy outliers rows in
+    memz d (f_outliers f) = true -> present (f_data f) d p g = false.
+Proof. exact analysis_has_no_entry_for_reported_dates. Qed.
+Theorem C19_analysis_entry_iff_a_surviving_row :
+  forall noisy outliers rows d p g,
+    let f := fit noisy outliers rows in
+    present (f_data f) d p g = true <-> exists r, In r rows /\ kept f r = true /\ cell d p g r = true.
+Proof. exact analysis_entry_iff_a_surviving_row. Qed.
+Theorem C19_analysis_totals_row_order_irrelevant :
+  forall a b d p g, Permutation a b -> (total a d p g == total b d p g)%Q.
+Proof. exact analysis_total_row_order_irrelevant. Qed.
+Theorem C19_analysis_totals_ignore_other_cells :
+  forall rows extra d p g, (forall r, In r extra -> cell d p g r = false) -> total (rows ++ extra) d p g = total rows d p g.
+Proof. exact analysis_total_ignores_other_cells. Qed.
 Print Assumptions C19_screened_data_is_input_minus_reported.
+Print Assumptions C19_analysis_totals_are_totals_of_surviving_input_rows.
+Print Assumptions C19_analysis_entry_iff_a_surviving_row.
 Print Assumptions C19_row_survives_iff_not_reported.
 Print Assumptions C19_row_order_irrelevant.
